@@ -112,29 +112,56 @@ pub fn replay(args: &Args) -> i32 {
     0
 }
 
-/// leg 2: random master formulas over a richer alphabet and random offsets through the window
-/// calamine::verif::replace_cell_names; logged as (text, offset, result) for Trace_SharedFormula
+/// leg 2: random master formulas built from lexical atoms (so that the ideal translation is known)
+/// with references anywhere in the grid and random offsets, through the window
+/// calamine::verif::replace_cell_names; logged as (text, offset, result, ideal, features)
 pub fn drive(args: &Args) -> i32 {
     let n = args.num("n", 300);
     let mut rng = StdRng::seed_from_u64(args.seed() ^ 0xC15);
     let mut out = std::io::BufWriter::new(std::fs::File::create(args.req("out")).unwrap());
-    let pieces = ["A1", "$A1", "A$1", "$A$1", "B2", "XFD1", "AA10", "Z9", "$IV$65536", "+", "*", ",", "(", ")", ":", "SUM", "LOG10", "IF",
-                  "\"x\"", "\"A3\"", "Data!", "AB1!", "'My Sheet'!", "10", "1.5", "1E5", "Rate", "TAX2020", " ", "&", "TRUE", "ATAN2"];
+    // (text, feature) atoms without references
+    let plain: [(&str, &str); 14] = [("SUM(", ""), (")", ""), ("+", ""), ("*", ""), (",", ""), ("\"x\"", ""), ("\"A3\"", ""), ("10", ""), ("1.5", ""),
+        ("Rate", ""), ("TRUE", ""), ("LOG10(", "FuncDigits"), ("TAX2020", "NameCellLike"), ("1E5", "SciNumber")];
+    let sheets: [(&str, &str); 3] = [("Data!", ""), ("'My Sheet'!", ""), ("AB1!", "SheetCellLike")];
     for run in 0..n {
-        let k = rng.gen_range(1..8);
-        let s: String = (0..k).map(|_| pieces[rng.gen_range(0..pieces.len())]).collect();
-        // rows of 10+ digits are outside the modelled language (u32 row overflow)
-        let mut run_d = 0;
-        if s.chars().any(|c| { if c.is_ascii_digit() { run_d += 1 } else if !c.is_ascii_alphabetic() { run_d = 0 }; run_d >= 9 }) {
-            continue;
-        }
         let off = (rng.gen_range(0..5i64), rng.gen_range(0..5i64));
+        let k = rng.gen_range(1..7);
+        let mut s = String::new();
+        let mut ideal = String::new();
+        let mut feats: Vec<&str> = Vec::new();
+        let mut last_alnum = false;
+        for _ in 0..k {
+            // keep identifiers apart: two alphanumeric atoms in a row would form a different lexeme
+            if last_alnum { s.push('+'); ideal.push('+'); }
+            if rng.gen_bool(0.55) {
+                if rng.gen_bool(0.25) {
+                    let (t, f) = sheets[rng.gen_range(0..sheets.len())];
+                    s.push_str(t); ideal.push_str(t);
+                    if !f.is_empty() { feats.push(f); }
+                }
+                let (cabs, rabs) = (rng.gen_bool(0.3), rng.gen_bool(0.3));
+                let col = [0u32, 1, 25, 26, 27, 701, 702, 16370][rng.gen_range(0..8)] + rng.gen_range(0..3);
+                let row = [0u32, 8, 9, 98, 99, 1048560][rng.gen_range(0..6)] + rng.gen_range(0..3);
+                let txt = |c: u32, r: u32| format!("{}{}{}{}", if cabs { "$" } else { "" }, crate::build::xlsx::col_name(c), if rabs { "$" } else { "" }, r + 1);
+                s.push_str(&txt(col, row));
+                ideal.push_str(&txt(if cabs { col } else { col + off.1 as u32 }, if rabs { row } else { row + off.0 as u32 }));
+                if cabs != rabs { feats.push("MixedRef"); }
+                last_alnum = true;
+            } else {
+                let (t, f) = plain[rng.gen_range(0..plain.len())];
+                s.push_str(t); ideal.push_str(t);
+                if !f.is_empty() { feats.push(f); }
+                last_alnum = t.chars().last().map_or(false, |c| c.is_ascii_alphanumeric());
+            }
+        }
+        feats.sort();
+        feats.dedup();
         let res = catch(|| calamine::verif::replace_cell_names(&s, off).map_err(|e| e.to_string()));
-        let chars: Vec<String> = s.chars().map(|c| c.to_string()).collect();
+        let chars = |x: &str| x.chars().map(|c| c.to_string()).collect::<Vec<_>>();
         let ev = match res {
-            Ok(Ok(r)) => json!({"e": "replace", "run": run, "s": chars, "dr": off.0, "dc": off.1, "res": r.chars().map(|c| c.to_string()).collect::<Vec<_>>()}),
-            Ok(Err(e)) => json!({"e": "replace", "run": run, "s": chars, "dr": off.0, "dc": off.1, "error": e}),
-            Err(p) => json!({"e": "replace", "run": run, "s": chars, "dr": off.0, "dc": off.1, "error": p}),
+            Ok(Ok(r)) => json!({"e": "replace", "run": run, "s": chars(&s), "dr": off.0, "dc": off.1, "res": chars(&r), "ideal": chars(&ideal), "feats": feats}),
+            Ok(Err(e)) => json!({"e": "replace", "run": run, "s": chars(&s), "dr": off.0, "dc": off.1, "error": e, "ideal": chars(&ideal), "feats": feats}),
+            Err(p) => json!({"e": "replace", "run": run, "s": chars(&s), "dr": off.0, "dc": off.1, "error": p, "ideal": chars(&ideal), "feats": feats}),
         };
         writeln!(out, "{}", ev).unwrap();
     }
